@@ -2,11 +2,21 @@ package bloom
 
 import "sync"
 
-func vWatch(mu *sync.Mutex, p interface{}) {}
-func vHeld(mu *sync.Mutex) bool {
-	if mu.TryLock() {
-		mu.Unlock()
-		return false
+func vWatch(mu interface{}, p interface{}) {}
+func vHeld(mu interface{}) bool {
+	switch m := mu.(type) {
+	case *sync.Mutex:
+		if m.TryLock() {
+			m.Unlock()
+			return false
+		}
+		return true
+	case *sync.RWMutex:
+		if m.TryLock() {
+			m.Unlock()
+			return false
+		}
+		return true
 	}
-	return true
+	return false
 }
